@@ -68,6 +68,12 @@ type setting struct {
 	native bool
 }
 
+// Base settings (how the charts are rendered). A setting token in an op is `<base>[+<modifier>]*`:
+//
+//	+pd    webhook Config.Policy = disabled
+//	+sel   webhook Config with Never/AlwaysInjectSelector lists (incl. an invalid and an empty entry)
+//	+path  admission arrives on the inject URL path /inject/cluster/c1/net/n1
+//	+d     API-server defaulting is applied to the pod before each admission (and to each result)
 var settings = []setting{
 	{name: "default"},
 	{name: "hold", flags: []string{"values.global.proxy.holdApplicationUntilProxyStarts=true"}},
@@ -76,11 +82,30 @@ var settings = []setting{
 	{name: "noprobe", flags: []string{"values.sidecarInjectorWebhook.rewriteAppHTTPProbe=false"}},
 	{name: "custom", files: []string{"custom-template.iop.yaml"}},
 	{name: "spire", files: []string{"spire-template.iop.yaml"}},
+	{name: "network", flags: []string{"values.global.network=network-a", "values.global.multiCluster.clusterName=cluster-a"}},
 }
 
 type loaded struct {
-	wh     *inject.Webhook
-	native bool
+	wh         *inject.Webhook
+	cfg        *inject.Config // the Config the webhook decides with
+	native     bool
+	path       string
+	defaulting bool
+}
+
+const injectPath = "/inject/cluster/c1/net/n1"
+
+func selectorConfig(cfg *inject.Config) {
+	cfg.NeverInjectSelector = []metav1.LabelSelector{
+		{MatchExpressions: []metav1.LabelSelectorRequirement{{Key: "app", Operator: "Bogus"}}}, // does not parse: skipped
+		{}, // empty: skipped (would match everything)
+		{MatchExpressions: []metav1.LabelSelectorRequirement{{Key: "app", Operator: metav1.LabelSelectorOpIn, Values: []string{"web", "db"}}}},
+	}
+	cfg.AlwaysInjectSelector = []metav1.LabelSelector{
+		{MatchLabels: map[string]string{"bad key!": "x"}},
+		{MatchLabels: map[string]string{"version": "v1"}},
+		{MatchExpressions: []metav1.LabelSelectorRequirement{{Key: "service.istio.io/canonical-name", Operator: metav1.LabelSelectorOpExists}}},
+	}
 }
 
 var loadedSettings = map[string]*loaded{}
@@ -89,6 +114,34 @@ var loadedSettings = map[string]*loaded{}
 // do) and builds a Webhook from the resulting injector ConfigMap.
 func loadSetting(name string) (*loaded, error) {
 	if l, ok := loadedSettings[name]; ok {
+		return l, nil
+	}
+	parts := strings.Split(name, "+")
+	if len(parts) > 1 {
+		base, err := loadSetting(parts[0])
+		if err != nil {
+			return nil, err
+		}
+		cfg := *base.cfg
+		l := &loaded{native: base.native}
+		for _, m := range parts[1:] {
+			switch m {
+			case "pd":
+				cfg.Policy = inject.InjectionPolicyDisabled
+			case "sel":
+				selectorConfig(&cfg)
+			case "path":
+				l.path = injectPath
+			case "d":
+				l.defaulting = true
+			default:
+				return nil, fmt.Errorf("unknown setting modifier %q", m)
+			}
+		}
+		wc := base.wh.GetConfig()
+		l.cfg = &cfg
+		l.wh = inject.VerifNewWebhook(&cfg, wc.Values, wc.MeshConfig, "default")
+		loadedSettings[name] = l
 		return l, nil
 	}
 	var st *setting
@@ -143,7 +196,7 @@ func loadSetting(name string) (*loaded, error) {
 	if cfg == nil || mc == nil {
 		return nil, fmt.Errorf("injector or mesh ConfigMap not rendered")
 	}
-	l := &loaded{wh: inject.VerifNewWebhook(cfg, vc, mc, "default"), native: st.native}
+	l := &loaded{wh: inject.VerifNewWebhook(cfg, vc, mc, "default"), cfg: cfg, native: st.native}
 	loadedSettings[name] = l
 	return l, nil
 }
@@ -274,8 +327,12 @@ func fixturePod(file string, doc int) (*corev1.Pod, string, error) {
 // ---------------------------------------------------------------- running the real path
 
 type run struct {
-	status            string // injected | skipped | error | unloadable
+	status            string // injected | skipped | error | bad-patch | crash | *-on-reinjection | unloadable
 	detail            string
+	kind              string // fixture | kubeinject | pod
+	file              string // fixture file (fixture / kubeinject)
+	l                 *loaded
+	reqNS             string
 	orig, once, twice *corev1.Pod
 	origJSON          []byte
 	onceJSON          []byte
@@ -297,7 +354,7 @@ func admit(l *loaded, podJSON []byte, ns string) (patched []byte, status string,
 	defer func() { features.EnableNativeSidecars = prev }()
 	resp := l.wh.VerifInject(&kube.AdmissionReview{Request: &kube.AdmissionRequest{
 		Object: runtime.RawExtension{Raw: podJSON}, Namespace: ns,
-	}}, "")
+	}}, l.path)
 	if resp == nil {
 		return nil, "error", "nil response"
 	}
@@ -309,56 +366,184 @@ func admit(l *loaded, podJSON []byte, ns string) (patched []byte, status string,
 	}
 	p, err := jsonpatch.DecodePatch(resp.Patch)
 	if err != nil {
-		return nil, "error", "patch does not decode: " + err.Error()
+		return nil, "bad-patch", "patch does not decode: " + err.Error()
 	}
 	out, err := p.Apply(podJSON)
 	if err != nil {
-		return nil, "error", "patch does not apply: " + err.Error()
+		return nil, "bad-patch", "patch does not apply: " + err.Error()
+	}
+	if json.Unmarshal(out, &corev1.Pod{}) != nil {
+		return nil, "bad-patch", "patched pod does not decode"
 	}
 	return out, "injected", ""
 }
 
 func runPod(settingName string, pod *corev1.Pod, ns string) *run {
-	r := &run{orig: pod}
+	r := &run{orig: pod, reqNS: ns}
 	l, err := loadSetting(settingName)
 	if err != nil {
 		r.status, r.detail = "unloadable", err.Error()
 		return r
 	}
-	r.origJSON, err = json.Marshal(pod)
+	r.l = l
+	// redo normalises through JSON (all three pods went through the same decoding) and, in the +d variant,
+	// applies what the API server would default before the pod reaches the next admission plugin
+	redo := func(b []byte) (*corev1.Pod, []byte, error) {
+		q := &corev1.Pod{}
+		if err := json.Unmarshal(b, q); err != nil {
+			return nil, nil, err
+		}
+		if l.defaulting {
+			apiDefaults(q)
+			nb, err := json.Marshal(q)
+			if err != nil {
+				return nil, nil, err
+			}
+			q = &corev1.Pod{}
+			if err := json.Unmarshal(nb, q); err != nil {
+				return nil, nil, err
+			}
+			return q, nb, nil
+		}
+		return q, b, nil
+	}
+	b, err := json.Marshal(pod)
 	if err != nil {
 		r.status, r.detail = "unloadable", err.Error()
 		return r
 	}
-	// normalise orig through JSON so that all three pods went through the same decoding
-	r.orig = &corev1.Pod{}
-	if err := json.Unmarshal(r.origJSON, r.orig); err != nil {
+	if r.orig, r.origJSON, err = redo(b); err != nil {
 		r.status, r.detail = "unloadable", err.Error()
 		return r
 	}
 	onceJSON, st, detail := admit(l, r.origJSON, ns)
 	r.status, r.detail = st, detail
-	if st == "error" || st == "crash" {
+	if st != "injected" && st != "skipped" {
 		return r
 	}
-	r.onceJSON = onceJSON
-	r.once = &corev1.Pod{}
-	if err := json.Unmarshal(onceJSON, r.once); err != nil {
-		r.status, r.detail = "error", "patched pod does not decode: "+err.Error()
+	if r.once, r.onceJSON, err = redo(onceJSON); err != nil {
+		r.status, r.detail = "bad-patch", "patched pod does not decode: "+err.Error()
 		return r
 	}
-	twiceJSON, st2, detail2 := admit(l, onceJSON, ns)
-	if st2 == "error" || st2 == "crash" {
+	twiceJSON, st2, detail2 := admit(l, r.onceJSON, ns)
+	if st2 != "injected" && st2 != "skipped" {
 		r.status, r.detail = st2+"-on-reinjection", detail2
 		return r
 	}
-	r.twiceJSON = twiceJSON
-	r.twice = &corev1.Pod{}
-	if err := json.Unmarshal(twiceJSON, r.twice); err != nil {
+	if st == "injected" && st2 == "skipped" {
+		r.status, r.detail = "error-on-reinjection", "the injected pod is skipped when admitted again"
+		return r
+	}
+	if r.twice, r.twiceJSON, err = redo(twiceJSON); err != nil {
 		r.status, r.detail = "error-on-reinjection", err.Error()
 		return r
 	}
 	return r
+}
+
+// apiDefaults applies the defaults the API server sets on a pod (k8s.io/kubernetes pkg/apis/core/v1/defaults.go; written
+// out by hand, the defaulting package is not importable): these are the fields strategic-merge slips act on.
+func apiDefaults(p *corev1.Pod) {
+	ctr := func(c *corev1.Container) {
+		for i := range c.Ports {
+			if c.Ports[i].Protocol == "" {
+				c.Ports[i].Protocol = corev1.ProtocolTCP
+			}
+		}
+		if c.TerminationMessagePath == "" {
+			c.TerminationMessagePath = corev1.TerminationMessagePathDefault
+		}
+		if c.TerminationMessagePolicy == "" {
+			c.TerminationMessagePolicy = corev1.TerminationMessageReadFile
+		}
+		if c.ImagePullPolicy == "" {
+			c.ImagePullPolicy = corev1.PullIfNotPresent
+			if strings.HasSuffix(c.Image, ":latest") || !strings.Contains(c.Image[strings.LastIndex(c.Image, "/")+1:], ":") {
+				c.ImagePullPolicy = corev1.PullAlways
+			}
+		}
+		for _, pr := range []*corev1.Probe{c.ReadinessProbe, c.LivenessProbe, c.StartupProbe} {
+			if pr == nil {
+				continue
+			}
+			if pr.TimeoutSeconds == 0 {
+				pr.TimeoutSeconds = 1
+			}
+			if pr.PeriodSeconds == 0 {
+				pr.PeriodSeconds = 10
+			}
+			if pr.SuccessThreshold == 0 {
+				pr.SuccessThreshold = 1
+			}
+			if pr.FailureThreshold == 0 {
+				pr.FailureThreshold = 3
+			}
+			if pr.HTTPGet != nil && pr.HTTPGet.Scheme == "" {
+				pr.HTTPGet.Scheme = corev1.URISchemeHTTP
+			}
+			if pr.GRPC != nil && pr.GRPC.Service == nil {
+				e := ""
+				pr.GRPC.Service = &e
+			}
+		}
+		for i := range c.Env {
+			if c.Env[i].ValueFrom != nil && c.Env[i].ValueFrom.FieldRef != nil && c.Env[i].ValueFrom.FieldRef.APIVersion == "" {
+				c.Env[i].ValueFrom.FieldRef.APIVersion = "v1"
+			}
+		}
+	}
+	for i := range p.Spec.Containers {
+		ctr(&p.Spec.Containers[i])
+	}
+	for i := range p.Spec.InitContainers {
+		ctr(&p.Spec.InitContainers[i])
+	}
+	mode := int32(0o644)
+	for i := range p.Spec.Volumes {
+		v := &p.Spec.Volumes[i]
+		if v.Secret != nil && v.Secret.DefaultMode == nil {
+			v.Secret.DefaultMode = &mode
+		}
+		if v.ConfigMap != nil && v.ConfigMap.DefaultMode == nil {
+			v.ConfigMap.DefaultMode = &mode
+		}
+		if v.Projected != nil && v.Projected.DefaultMode == nil {
+			v.Projected.DefaultMode = &mode
+		}
+		if v.DownwardAPI != nil {
+			if v.DownwardAPI.DefaultMode == nil {
+				v.DownwardAPI.DefaultMode = &mode
+			}
+			for j := range v.DownwardAPI.Items {
+				if f := v.DownwardAPI.Items[j].FieldRef; f != nil && f.APIVersion == "" {
+					f.APIVersion = "v1"
+				}
+			}
+		}
+	}
+	if p.Spec.RestartPolicy == "" {
+		p.Spec.RestartPolicy = corev1.RestartPolicyAlways
+	}
+	if p.Spec.DNSPolicy == "" {
+		p.Spec.DNSPolicy = corev1.DNSClusterFirst
+	}
+	if p.Spec.SchedulerName == "" {
+		p.Spec.SchedulerName = corev1.DefaultSchedulerName
+	}
+	if p.Spec.SecurityContext == nil {
+		p.Spec.SecurityContext = &corev1.PodSecurityContext{}
+	}
+	if p.Spec.TerminationGracePeriodSeconds == nil {
+		g := int64(corev1.DefaultTerminationGracePeriodSeconds)
+		p.Spec.TerminationGracePeriodSeconds = &g
+	}
+	if p.Spec.EnableServiceLinks == nil {
+		t := corev1.DefaultEnableServiceLinks
+		p.Spec.EnableServiceLinks = &t
+	}
+	if p.Spec.ServiceAccountName != "" && p.Spec.DeprecatedServiceAccount == "" {
+		p.Spec.DeprecatedServiceAccount = p.Spec.ServiceAccountName
+	}
 }
 
 func runOp(toks []string) *run {
@@ -373,14 +558,18 @@ func runOp(toks []string) *run {
 		if err != nil {
 			return &run{status: "unloadable", detail: err.Error()}
 		}
-		return runPod(toks[1], pod, ns)
+		r := runPod(toks[1], pod, ns)
+		r.kind, r.file = "fixture", wire.Dec(toks[2])
+		return r
 	case "kubeinject":
 		if len(toks) != 4 {
 			return &run{status: "unloadable", detail: "bad op"}
 		}
 		doc := 0
 		fmt.Sscan(toks[3], &doc)
-		return runKubeInject(toks[1], wire.Dec(toks[2]), doc)
+		r := runKubeInject(toks[1], wire.Dec(toks[2]), doc)
+		r.kind, r.file = "kubeinject", wire.Dec(toks[2])
+		return r
 	case "pod":
 		if len(toks) != 4 {
 			return &run{status: "unloadable", detail: "bad op"}
@@ -389,7 +578,9 @@ func runOp(toks []string) *run {
 		if err := json.Unmarshal([]byte(wire.Dec(toks[3])), pod); err != nil {
 			return &run{status: "unloadable", detail: err.Error()}
 		}
-		return runPod(toks[1], pod, wire.Dec(toks[2]))
+		r := runPod(toks[1], pod, wire.Dec(toks[2]))
+		r.kind = "pod"
+		return r
 	}
 	return &run{status: "unloadable", detail: "unknown op"}
 }
@@ -443,6 +634,7 @@ func runKubeInject(settingName, file string, doc int) (r *run) {
 		r.status, r.detail = "unloadable", err.Error()
 		return r
 	}
+	r.l = l
 	docs := fixtureDocs(file)
 	if doc >= len(docs) {
 		r.status, r.detail = "unloadable", "no such document"
@@ -576,6 +768,10 @@ func execInject(in, out string) {
 			src = []string{"pod", toks[1], toks[2], "json:" + digest(toks[3])}
 		}
 		o.Line(append([]string{"src"}, src...)...)
+		if r.orig != nil && r.l != nil && r.status != "unloadable" {
+			writeDecisionInputs(o, decisionInputs(r))
+			o.Line("refusal", refusalExpectation(r))
+		}
 		if r.orig != nil && r.status != "unloadable" {
 			writePod(o, "orig", r.orig)
 		}
@@ -585,7 +781,11 @@ func execInject(in, out string) {
 		if r.twice != nil {
 			writePod(o, "twice", r.twice)
 		}
-		o.Line("status", r.status, wire.Enc(truncate(r.detail, 200)))
+		detail := r.detail
+		if i := strings.Index(detail, "; have "); i >= 0 {
+			detail = detail[:i] // the list of known templates is printed in map order: keep the trace byte-stable
+		}
+		o.Line("status", r.status, wire.Enc(truncate(detail, 200)))
 		o.Line("check")
 		o.Flush()
 	}
@@ -596,6 +796,124 @@ func truncate(s string, n int) string {
 		return s[:n]
 	}
 	return s
+}
+
+// ---------------------------------------------------------------- what the documentation says should happen to this pod
+
+// decisionInputs are the inputs of the documented decision for this admission: the pod's namespace is its own, else the
+// namespace of the admission request; the webhook decides with its Config (policy, selectors); kube-inject decides with
+// policy "enabled" and no selectors.
+func decisionInputs(r *run) *decideState {
+	st := &decideState{}
+	st.spec = *r.orig.Spec.DeepCopy()
+	st.meta = *r.orig.ObjectMeta.DeepCopy()
+	if r.kind == "kubeinject" {
+		st.cfg = inject.Config{Policy: inject.InjectionPolicyEnabled}
+		return st
+	}
+	if st.meta.Namespace == "" {
+		st.meta.Namespace = r.reqNS
+	}
+	st.cfg = inject.Config{Policy: r.l.cfg.Policy, NeverInjectSelector: r.l.cfg.NeverInjectSelector, AlwaysInjectSelector: r.l.cfg.AlwaysInjectSelector}
+	return st
+}
+
+func selectorToks(sel metav1.LabelSelector) []string {
+	var ks, vs []string
+	for k := range sel.MatchLabels {
+		ks = append(ks, k)
+	}
+	sort.Strings(ks)
+	for _, k := range ks {
+		vs = append(vs, sel.MatchLabels[k])
+	}
+	toks := []string{wire.EncList(ks), wire.EncList(vs)}
+	for _, e := range sel.MatchExpressions {
+		toks = append(toks, wire.Enc(e.Key), wire.Enc(string(e.Operator)), wire.EncList(e.Values))
+	}
+	return toks
+}
+
+func mapToks(m map[string]string) (string, string) {
+	var ks, vs []string
+	for k := range m {
+		ks = append(ks, k)
+	}
+	sort.Strings(ks)
+	for _, k := range ks {
+		vs = append(vs, m[k])
+	}
+	return wire.EncList(ks), wire.EncList(vs)
+}
+
+// writeDecisionInputs prints the inputs in the syntax of the `decide` stream, so that the Lean driver evaluates its
+// model of the documented cascade on them.
+func writeDecisionInputs(o *wire.Out, st *decideState) {
+	lk, lv := mapToks(st.meta.Labels)
+	ak, av := mapToks(st.meta.Annotations)
+	o.Line("pod", wire.B(st.spec.HostNetwork), wire.Enc(st.meta.Namespace), lk, lv, ak, av)
+	o.Line("policy", wire.Enc(string(st.cfg.Policy)))
+	for _, sel := range st.cfg.NeverInjectSelector {
+		o.Line(append([]string{"never"}, selectorToks(sel)...)...)
+	}
+	for _, sel := range st.cfg.AlwaysInjectSelector {
+		o.Line(append([]string{"always"}, selectorToks(sel)...)...)
+	}
+}
+
+// invalidAnnotationValues: values the generator emits on purpose and the documentation declares invalid.
+var invalidAnnotationValues = map[string][]string{
+	"sidecar.istio.io/proxyCPU": {"not-a-quantity!"},
+}
+
+func hasGolden(file string) bool {
+	_, err := os.Stat(filepath.Join(fixtureDir(), file+".injected"))
+	return err == nil
+}
+
+// refusalExpectation: "must" - the injector has to refuse the pod (it names a template that does not exist, or carries an
+// annotation value documented as invalid); "may" - a repository fixture without a golden output (the suite's negative
+// cases); "no" - the pod has to be injected.
+func refusalExpectation(r *run) string {
+	known := map[string]bool{}
+	for k := range r.l.cfg.Templates {
+		known[k] = true
+	}
+	names := r.l.cfg.DefaultTemplates
+	aliases := r.l.cfg.Aliases
+	if r.kind == "kubeinject" {
+		names, aliases = []string{inject.SidecarTemplateName}, nil
+	}
+	if a, f := r.orig.Annotations["inject.istio.io/templates"]; f {
+		names = nil
+		for _, n := range strings.Split(a, ",") {
+			names = append(names, strings.TrimSpace(n))
+		}
+	}
+	for _, n := range names {
+		res := []string{n}
+		if al, f := aliases[n]; f {
+			res = al
+		}
+		for _, x := range res {
+			if !known[x] {
+				return "must"
+			}
+		}
+	}
+	for k, bad := range invalidAnnotationValues {
+		if v, f := r.orig.Annotations[k]; f {
+			for _, b := range bad {
+				if v == b {
+					return "must"
+				}
+			}
+		}
+	}
+	if (r.kind == "fixture" || r.kind == "kubeinject") && !hasGolden(r.file) {
+		return "may"
+	}
+	return "no"
 }
 
 // ---------------------------------------------------------------- oracle (directly on the Go objects)
@@ -694,17 +1012,39 @@ func verdictOf(r *run) string {
 	switch r.status {
 	case "unloadable":
 		return "OK unloadable"
-	case "error":
-		return "OK rejected" // the injector refused the pod (invalid annotations, unknown template, ...): nothing was changed
 	case "crash":
 		return "FAIL crash " + wire.Enc(truncate(r.detail, 120))
-	case "error-on-reinjection", "crash-on-reinjection":
+	case "bad-patch":
+		return "FAIL bad-patch " + wire.Enc(truncate(r.detail, 120))
+	case "error-on-reinjection", "crash-on-reinjection", "bad-patch-on-reinjection":
 		return "FAIL reinjection-errors " + wire.Enc(truncate(r.detail, 120))
+	}
+	// the decision of this admission against the documented precedence
+	want, clause := documentedConcrete(decisionInputs(r))
+	refusal := refusalExpectation(r)
+	switch r.status {
+	case "error":
+		if !want {
+			return "FAIL decision-refused-but-documented-skip " + clause
+		}
+		if refusal == "no" {
+			return "FAIL unexpected-refusal " + wire.Enc(truncate(r.detail, 160))
+		}
+		return "OK rejected"
 	case "skipped":
+		if want {
+			return "FAIL decision-skipped-but-documented-inject " + clause
+		}
 		if !jsonEqual(r.origJSON, r.onceJSON) {
 			return "FAIL skipped-but-changed"
 		}
 		return "OK skipped"
+	}
+	if !want {
+		return "FAIL decision-injected-but-documented-skip " + clause
+	}
+	if refusal == "must" {
+		return "FAIL expected-refusal-but-injected"
 	}
 	if v := preserved("preserve-once", r.orig, r.once); v != "" {
 		return v
@@ -713,18 +1053,77 @@ func verdictOf(r *run) string {
 		return v
 	}
 	if !jsonEqual(r.onceJSON, r.twiceJSON) {
-		if onlyPodPortsOfUserProxy(r) {
-			// known finding F10e, classified exactly: see notes/C19.md
-			return "FAIL idempotent-podports-user-proxy-ports " + wire.Enc(firstDiff(r.onceJSON, r.twiceJSON))
+		if k := knownClass(r); k != "" {
+			// known findings F10e / F10g, classified exactly: see notes/C19.md
+			return "FAIL " + k + " " + wire.Enc(firstDiff(r.onceJSON, r.twiceJSON))
 		}
 		return "FAIL idempotent " + wire.Enc(firstDiff(r.onceJSON, r.twiceJSON))
+	}
+	if v := networkExpectation(r); v != "" {
+		return v
 	}
 	return "OK injected"
 }
 
-// onlyPodPortsOfUserProxy: the pod customises the sidecar with a container (or recorded override) named istio-proxy
-// that declares ports, and once / twice differ in nothing but the value of the sidecar's ISTIO_META_POD_PORTS.
-func onlyPodPortsOfUserProxy(r *run) bool {
+// networkExpectation (oracle only): the network of the workload is, in this order, the pod's topology.istio.io/network
+// label, the `net` element of the inject URL path, values.global.network; the injected pod carries it as that label and
+// the sidecar's ISTIO_META_NETWORK says the same (exactly once); without any of the three there is neither.
+func networkExpectation(r *run) string {
+	if r.kind == "kubeinject" || r.l == nil {
+		return ""
+	}
+	const key = "topology.istio.io/network"
+	want, explicit := r.orig.Labels[key]
+	if !explicit {
+		if strings.HasPrefix(r.l.path, "/inject/") {
+			want = "n1"
+		} else {
+			want = r.l.wh.GetConfig().Values.Struct().GetGlobal().GetNetwork()
+		}
+	}
+	for _, p := range []*corev1.Pod{r.once, r.twice} {
+		got, has := p.Labels[key]
+		if got != want || (has && want == "" && !explicit) {
+			return "FAIL network-label " + wire.Enc(fmt.Sprintf("label=%q present=%v want %q", got, has, want))
+		}
+		sc := inject.FindSidecar(p)
+		if sc == nil || !hasTemplate(r, inject.SidecarTemplateName) {
+			continue
+		}
+		n, env := 0, ""
+		for _, e := range sc.Env {
+			if e.Name == "ISTIO_META_NETWORK" {
+				n++
+				env = e.Value
+			}
+		}
+		if n > 1 || env != want {
+			return "FAIL network-env " + wire.Enc(fmt.Sprintf("ISTIO_META_NETWORK x%d = %q want %q", n, env, want))
+		}
+	}
+	return ""
+}
+
+// hasTemplate: the pod is injected with (exactly) the named template.
+func hasTemplate(r *run, name string) bool {
+	a, f := r.orig.Annotations["inject.istio.io/templates"]
+	if !f {
+		return len(r.l.cfg.DefaultTemplates) == 1 && r.l.cfg.DefaultTemplates[0] == name
+	}
+	return strings.TrimSpace(a) == name
+}
+
+// knownClass classifies a difference between once and twice as one of the known findings, exactly:
+//   F10e podports  - the pod customises the sidecar with a container (or recorded override) named istio-proxy that
+//                    declares ports, and the pods differ in nothing but the value of the sidecar's ISTIO_META_POD_PORTS;
+//   F10g env order - the injector was given cluster / network variables (values.global.multiCluster.clusterName,
+//                    values.global.network, an inject URL path or the pod's topology.istio.io/network label) and the
+//                    pods differ in nothing but the ORDER of the sidecar's env list.
+// A pod in both classes is reported under the first.
+func knownClass(r *run) string {
+	if r.once == nil || r.twice == nil {
+		return ""
+	}
 	userPorts := false
 	for _, c := range append(append([]corev1.Container{}, r.orig.Spec.Containers...), r.orig.Spec.InitContainers...) {
 		if c.Name == inject.ProxyContainerName && len(c.Ports) > 0 {
@@ -741,27 +1140,45 @@ func onlyPodPortsOfUserProxy(r *run) bool {
 			}
 		}
 	}
-	if !userPorts {
-		return false
+	clusterVars := false
+	if r.kind != "kubeinject" && r.l != nil {
+		g := r.l.wh.GetConfig().Values.Struct().GetGlobal()
+		_, netLabel := r.orig.Labels["topology.istio.io/network"]
+		clusterVars = r.l.path != "" || g.GetNetwork() != "" || g.GetMultiCluster().GetClusterName() != "" || netLabel
 	}
-	blank := func(p *corev1.Pod) []byte {
+	norm := func(p *corev1.Pod, blankPorts, sortEnv bool) []byte {
 		q := p.DeepCopy()
 		for _, l := range [][]corev1.Container{q.Spec.Containers, q.Spec.InitContainers} {
 			for i := range l {
 				if l[i].Name != inject.ProxyContainerName {
 					continue
 				}
-				for j := range l[i].Env {
-					if l[i].Env[j].Name == "ISTIO_META_POD_PORTS" {
-						l[i].Env[j].Value = ""
+				env := l[i].Env
+				if blankPorts {
+					for j := range env {
+						if env[j].Name == "ISTIO_META_POD_PORTS" {
+							env[j].Value = ""
+						}
 					}
+				}
+				if sortEnv {
+					sort.SliceStable(env, func(a, b int) bool { return env[a].Name < env[b].Name })
 				}
 			}
 		}
 		b, _ := json.Marshal(q)
 		return b
 	}
-	return jsonEqual(blank(r.once), blank(r.twice))
+	if userPorts && jsonEqual(norm(r.once, true, false), norm(r.twice, true, false)) {
+		return "idempotent-podports-user-proxy-ports"
+	}
+	if clusterVars && jsonEqual(norm(r.once, false, true), norm(r.twice, false, true)) {
+		return "idempotent-sidecar-env-order-cluster-vars"
+	}
+	if userPorts && clusterVars && jsonEqual(norm(r.once, true, true), norm(r.twice, true, true)) {
+		return "idempotent-podports-user-proxy-ports"
+	}
+	return ""
 }
 
 func jsonEqual(a, b []byte) bool {
